@@ -1,6 +1,8 @@
 package definition
 
 import (
+	"maps"
+	"slices"
 	"strings"
 	"sync"
 
@@ -57,7 +59,9 @@ func (a *flowAssets) FindByName(name string) (flows.Flow, error) {
 	a.mutex.Lock()
 	defer a.mutex.Unlock()
 
-	for _, flow := range a.cache {
+	// check the cache in a stable order in case several flows have names which differ only by case
+	for _, uuid := range slices.Sorted(maps.Keys(a.cache)) {
+		flow := a.cache[uuid]
 		if strings.EqualFold(flow.Name(), name) {
 			return flow, nil
 		}
